@@ -32,7 +32,8 @@ ASSUMPTIONS = [
 EXHAUSTIVE = ()
 STEP = 30 * 10**9
 MIN = 60 * 10**9
-BASE = 1_700_000_000 * 10**9
+BASE = 1_700_000_000 * 10**9 + 123_000  # whole us, not a multiple of 256 ns: such
+#                                        values are not exact in a double
 
 
 def all_spans(case):
@@ -276,6 +277,7 @@ def case_strategy():
         buffer = draw(st.sampled_from([0, 0, 1, 2, 5]))
         nt = draw(st.integers(1, 8))
         horizon = draw(st.sampled_from([8, 20, 40]))
+        storm = draw(st.integers(0, 5)) == 0
         traces = []
         for ti in range(nt):
             n = draw(st.integers(1, 6))
@@ -298,6 +300,8 @@ def case_strategy():
                 spans.append([f"j{ti}s{k}", parent, draw(st.sampled_from("ABC")),
                               nm, a, b])
             kind = draw(st.integers(0, 5))
+            if storm and kind <= 3:
+                kind = 0       # many broken traces (more than a small batch)
             if kind == 0 and n >= 1:
                 # dangling parent on a drawn non-root span (or an extra span)
                 spans.append([f"j{ti}s{n}", f"ghost{ti}", "G", name,
